@@ -79,7 +79,10 @@ class Extractor:
         if isinstance(value, (tuple, list)):
             idx = self.const_index(node.slice, env)
             if idx is not None:
-                return value[idx]
+                try:
+                    return value[idx]
+                except (IndexError, TypeError):
+                    raise AlgError("subscript %s outside the sequence the walk holds" % self.text(node))
         raise AlgError("unmodelled subscript %s" % self.text(node))
 
     def choose(self, test, env):
@@ -385,6 +388,21 @@ class Extractor:
             if isinstance(s.value, ast.Call):
                 d = _dotted(s.value.func)
                 if d in ("print", "warnings.warn"):
+                    return
+                f = s.value.func
+                # xs.append(v) / xs.extend(vs) on a local list the walk holds as a Python list
+                if isinstance(f, ast.Attribute) and f.attr in ("append", "extend") and isinstance(f.value, ast.Name) \
+                        and isinstance(env.get(f.value.id), list) and len(s.value.args) == 1 and not s.value.keywords:
+                    try:
+                        v = self.expr(s.value.args[0], env)
+                    except AlgError as e:
+                        v = Opaque(str(e))
+                    if f.attr == "append":
+                        env[f.value.id] = env[f.value.id] + [v]
+                    elif isinstance(v, (list, tuple)):
+                        env[f.value.id] = env[f.value.id] + list(v)
+                    else:
+                        env[f.value.id] = Opaque("extend with a non-literal sequence")
                     return
             try:
                 self.expr(s.value, env)
